@@ -34,15 +34,20 @@ TObs ==
     /\ Ev("Obs") /\ Adv1
     /\ Quiet /\ inq = << >>
     /\ R.gauge = gauge /\ R.fds = Cardinality(DOMAIN fwdTab) /\ R.alive = alive
+    \* running totals of the update_metrics callbacks, and the payload bytes the scripted
+    \* client sink actually accepted
+    /\ R.mo = met["out"] /\ R.mi = met["in"] /\ R.cb = SumSent(toClient)
     /\ AllGot
     /\ UNCHANGED vars
 
-TClientDgram == Ev("ClientDgram") /\ Adv1 /\ EnvQuiet /\ ClientDgram(R.f, R.id)
-TPeerReply   == Ev("PeerReply") /\ Adv1 /\ EnvQuiet /\ PeerReplies(R.f, R.id)
-TPeerGot     == Ev("PeerGot") /\ Adv1 /\ PeerGot(R.a, R.f, R.id)
+TClientDgram == Ev("ClientDgram") /\ Adv1 /\ EnvQuiet /\ ClientDgram(R.f, R.id, R.n)
+TPeerReply   == Ev("PeerReply") /\ Adv1 /\ EnvQuiet /\ PeerReplies(R.f, R.id, R.n)
+TPeerGot     == Ev("PeerGot") /\ Adv1 /\ PeerGot(R.a, R.f, R.id, R.n)
 TDown        == Ev("Down") /\ Adv1 /\ EnvQuiet /\ ServerDown(R.a)
 TUp          == Ev("Up") /\ Adv1 /\ EnvQuiet /\ ServerUp(R.a)
 TAdv         == Ev("Adv") /\ Adv1 /\ Adv(R.d)
+TStall       == Ev("Stall") /\ Adv1 /\ EnvQuiet /\ inq = << >> /\ ClientStalls
+TResume      == Ev("Resume") /\ Adv1 /\ EnvQuiet /\ inq = << >> /\ ClientResumes
 TClose       == Ev("Close") /\ Adv1 /\ EnvQuiet /\ inq = << >> /\ ClientCloses
 \* exchange() returned: legitimate only after the client closed the stream
 TRet         == Ev("Ret") /\ Adv1 /\ R.closed /\ Return
@@ -66,8 +71,15 @@ TClientGot ==
     /\ Ev("ClientGot") /\ Adv1
     /\ \E k \in AllKeys :
          /\ ReadReply(k)
-         /\ Head(rxq[k]) = R.id /\ fwdTab[k].owner = R.f
+         /\ Head(rxq[k]).id = R.id /\ Head(rxq[k]).len = R.n /\ fwdTab[k].owner = R.f
+         /\ (R.sent <=> ~stalled)
          /\ R.s = Rev(k).s /\ R.d = Rev(k).d
+\* the update_metrics callback: exactly once after a write the sink answered Sent, with the
+\* payload length of that datagram; after a Dropped one no action is enabled for this line
+TMetric ==
+    /\ Ev("Metric") /\ Adv1
+    /\ \/ R.dir = "out" /\ MetricOut /\ R.n = lcur.len
+       \/ R.dir = "in" /\ MetricIn /\ R.n = rcur.len
 TIncoming ==
     /\ Ev("Incoming") /\ Adv1 /\ RegisterIncoming
     /\ RK = Rev(rcur.lab)
@@ -102,6 +114,7 @@ TIcmp ==
 TNext == TStart \/ TBegin \/ TObs \/ TClientDgram \/ TPeerReply \/ TPeerGot \/ TDown \/ TUp \/ TAdv \/ TClose \/ TRet
          \/ TLookup \/ TInsert \/ TSockOpen \/ TNewConn \/ TOutgoing \/ TSinkWrite
          \/ TClientGot \/ TIncoming \/ TFlowRemove \/ TSockClose \/ TTick \/ TTickEnd \/ TIcmp
+         \/ TStall \/ TResume \/ TMetric
 
 TInit == l = 1 /\ Init
 TSpec == TInit /\ [][TNext]_tvars
